@@ -12,7 +12,7 @@ def build(chk):
     ftscreen.obligations(chk)
     chk.bounded_native("exact ensemble covariance (linear map recovered with unit draws) equals the inverse discrete Fourier sum of the spectrum; stationary variance; r0^(-5/6) amplitude over repeated calls", "spectrum",
                        "N in {6, 8}, four (delta, r0, L0, l0) sets incl. an inner scale below two pixels", "aotools/turbulence/phasescreen.py:ft_phase_screen")
-    chk.bounded_native("sub-harmonic part has zero mean and is drawn after the high-frequency screen from the same generator", "subharmonics", "one 16x16 case", "aotools/turbulence/phasescreen.py:ft_sh_phase_screen")
+    chk.bounded_native("sub-harmonic part: zero mean, drawn after the high-frequency screen from the same generator, equals the three 3x3 sub-harmonic grids with weights sqrt(PSD) del_f_g", "subharmonics", "one 16x16 case; exact content of the sub-harmonic part with replayed draws for three parameter sets (N = 6, 8, 12)", "aotools/turbulence/phasescreen.py:ft_sh_phase_screen")
     chk.notes.append("sub-harmonic clause 'only adds low-frequency power' holds for independent draws, i.e. seed None or a Generator; with an int seed the two default_rng(seed) streams coincide (recorded precondition)")
     chk.not_decided.append("structure function approaches the analytic von Karman one as the grid is refined; sub-harmonic variant closer at large separations (limits / numerical comparison)")
 
